@@ -35,6 +35,12 @@ Definition rx_rep (rep : fec -> N -> list N -> N -> N -> list (list N)) (c : ecf
   let '(al, as_, nal, _) := block_partitioning (c_b c) (c_tlen c) (c_e c) in
   nth (N.to_nat (i - nominal_syms al as_ nal s)) (blk_parity rep c content s) [].
 
+(* D47: the receiver discards a symbol longer than E.  Every parity shard the encoder oracle produces for a block of
+   this object has at most E bytes (reed_solomon_erasure: exactly E, the size of the padded source shards); needed for
+   DELIVERY only *)
+Definition rs_rep_sym_ok (rep : fec -> N -> list N -> N -> N -> list (list N)) (c : ecfg) (content : list N) : Prop :=
+  forall s x, In x (blk_parity rep c content s) -> lenN x <= c_e c.
+
 (* Every packet of the transfer: a block of the partition, the source block length field = k of the block, and
    either a source symbol = the E-byte slice of the content at its RFC 5052 offset ZERO-PADDED to E bytes, or a
    repair symbol with k <= ESI < k + (number of parity shards): the parity shard number ESI - k.  Executable. *)
@@ -346,6 +352,15 @@ Proof.
   rewrite En. apply M2. lia.
 Qed.
 
+Lemma rx_rep_sized rep c content oti : ro_e oti = c_e c -> rs_rep_sym_ok rep c content ->
+  rs_rep_sized oti (rx_rep rep c content).
+Proof.
+  intros He H s i. unfold rx_rep. destruct (block_partitioning (c_b c) (c_tlen c) (c_e c)) as [[[al as_] nal] n].
+  destruct (nth_in_or_default (N.to_nat (i - nominal_syms al as_ nal s)) (blk_parity rep c content s) []) as [Hin|Hd].
+  - rewrite He. exact (H s _ Hin).
+  - rewrite Hd. unfold lenN_. cbn [length]. lia.
+Qed.
+
 Section BridgeRS.
   Set Default Proof Using "All".
   Variable rep : fec -> N -> list N -> N -> N -> list (list N).
@@ -526,6 +541,7 @@ Section ComposeRS.
   Hypothesis Hl : 0 < c_tlen c.
   Hypothesis Hw : (1 <= c_window c)%nat.
   Hypothesis Hreplen : rep_len_ok rep.
+  Hypothesis Hrepsz : rs_rep_sym_ok rep c content.
   (* wire: E is a u16 *)
   Hypothesis He16 : c_e c < 65536.
   (* receiver: the FDT entry describes the object; the environment is friendly; THE DECODER ORACLE is MDS for the
@@ -588,6 +604,7 @@ Section ComposeRS.
       - exact scheme_ok_rs.
       - exact blocks_ok_rs.
       - rewrite <- tlen_is. exact Hfdt.
+      - apply rx_rep_sized; [apply Hoti|exact Hrepsz].
       - rewrite <- tlen_is. exact Hmax.
       - rewrite <- tlen_is. exact Hnb. }
     destruct (receive E fid files inst toi max pkts) as [o cx].
@@ -762,6 +779,25 @@ Proof.
   all: replace (ro_parity exu_oti) with 1 in Hi by reflexivity; assert (i = 1) by lia; subst i; vm_compute; reflexivity.
 Qed.
 
+Lemma xor_fold_len l : forall acc, (length (fold_left xor_bytes l acc) <= length acc)%nat.
+Proof.
+  induction l as [|x l IH]; intros acc; cbn [fold_left]; [lia|]. etransitivity; [apply IH|].
+  unfold xor_bytes. rewrite map_length, combine_length. lia.
+Qed.
+Lemma in_firstn_in {A} (x : A) : forall m l, In x (firstn m l) -> In x l.
+Proof. induction m as [|m IH]; intros [|y l]; cbn [firstn In]; try tauto. intros [H|H]; [left; exact H|right; apply IH; exact H]. Qed.
+Lemma xor_rep_sym_ok_gen c content : 2 <= c_e c -> rs_rep_sym_ok xor_rep c content.
+Proof.
+  intros He s x Hin. unfold blk_parity in Hin.
+  destruct (block_partitioning (c_b c) (c_tlen c) (c_e c)) as [[[al as_] nal] n].
+  unfold xor_rep in Hin. apply in_firstn_in in Hin.
+  destruct Hin as [<-|[]]. unfold lenN.
+  match goal with |- N.of_nat (length (fold_left xor_bytes ?l ?a)) <= _ => pose proof (xor_fold_len l a) as H end.
+  cbn [length] in H. lia.
+Qed.
+Lemma xor_rep_sym_ok f b closable content : rs_rep_sym_ok xor_rep (exr_cfg f b closable) content.
+Proof. apply xor_rep_sym_ok_gen. cbn [exr_cfg c_e]. lia. Qed.
+
 (* the premises of the theorems are satisfiable: they apply to these instances *)
 Example exr_clean_channel_by_theorem closable :
   delivered env_xor 1 exr_files None 7 1000 exr_content (wire_pkts_rs xor_rep no_rsrc (exr_cfg RS28 2 closable) exr_content 7).
@@ -773,6 +809,7 @@ Proof.
   - reflexivity.
   - cbn [exr_cfg c_window]. lia.
   - exact xor_rep_len.
+  - apply xor_rep_sym_ok.
   - reflexivity.
   - repeat split.
   - exists (mk_ff 7 CNull (Some exr_oti) 5 None None false). repeat split.
@@ -794,6 +831,7 @@ Proof.
   - reflexivity.
   - cbn [exr_cfg c_window]. lia.
   - exact xor_rep_len.
+  - apply xor_rep_sym_ok.
   - reflexivity.
   - repeat split.
   - exists (mk_ff 7 CNull (Some exu_oti) 5 None None false). repeat split.
@@ -816,6 +854,7 @@ Proof.
   - reflexivity.
   - cbn [exr_cfg c_window]. lia.
   - exact xor_rep_len.
+  - apply xor_rep_sym_ok.
   - reflexivity.
   - repeat split.
   - exists (mk_ff 7 CNull (Some exr_oti) 5 None None false). repeat split.
@@ -1010,6 +1049,7 @@ Section ComposeSessRS.
   Hypothesis HS : sender_ok_rs cfg now m content.
   Hypothesis HD : doc_fits cfg complete now m.
   Hypothesis HL : rep_len_ok rep.
+  Hypothesis HZ : rs_rep_sym_ok rep (obj_ecfg_rs cfg m 1 false false) content.
   Hypothesis HR : receiver_ok_rs rep E rcfg nowr sct cfg now m content.
 
   Notation toi := (m_toi m).
@@ -1061,6 +1101,9 @@ Section ComposeSessRS.
     - split; [exact T|]. split; [exact G|]. split; [intros pre; apply Rec; apply incl_appr, incl_refl|].
       exists body, lst. repeat split; assumption.
   Qed.
+
+  Lemma sess_rep_sized : rs_rep_sized oti rep'.
+  Proof. apply rx_rep_sized; [reflexivity|exact HZ]. Qed.
 
   (* ---- the FDT side ---- *)
   Lemma tlen_u64_rs : FdtInst.m_tlen m < FdtRecv.U64.
@@ -1130,7 +1173,7 @@ Section ComposeSessRS.
     pose proof HR as (Hwa & Hws & Hmd5 & Hmds & Hmax & Hnb & _).
     pose proof (rs_session_fdt_first_delivers E fdt_oracle rcfg oti content rep' toi (obj_md5 m) nowr pf id (nocode_roti (c_oti cfg))
                   (fdt_doc cfg complete now m) (sess_inst_rs cfg now m) w Hsok Hbok Htoi sess_pf_ok_rs sess_oracle_rs sess_live_rs
-                  sess_entry_rs Hwa Hws Hmd5 Hmds Hmax Hnb T G) as D.
+                  sess_entry_rs Hwa Hws Hmd5 Hmds sess_rep_sized Hmax Hnb T G) as D.
     assert (Cf : rs_close_flag_ok oti L w).
     { rewrite Ew. apply rs_close_flag_ok_last; [exact Fb|]. rewrite <- Ew. exact (Rec []). }
     specialize (D Cf (Rec [])).
@@ -1161,7 +1204,7 @@ Section ComposeSessRS.
       rewrite <- app_assoc, <- Ew. exact (Rec pre). }
     pose proof (rs_session_fdt_late_delivers E fdt_oracle rcfg oti content rep' toi (obj_md5 m) nowr pf id (nocode_roti (c_oti cfg))
                   (fdt_doc cfg complete now m) (sess_inst_rs cfg now m) pre w Hsok Hbok Htoi sess_pf_ok_rs sess_oracle_rs sess_live_rs
-                  sess_entry_rs Hwa Hws Hmd5 Hmds Hmax Hnb (proj2 (Forall_app _ _ _) (conj Tp T)) (proj2 (Forall_app _ _ _) (conj Gp G))
+                  sess_entry_rs Hwa Hws Hmd5 Hmds sess_rep_sized Hmax Hnb (proj2 (Forall_app _ _ _) (conj Tp T)) (proj2 (Forall_app _ _ _) (conj Gp G))
                   Pp Cf (Rec pre)) as D.
     destruct (recv_run E fdt_oracle rcfg recv0 (map (fun p => RvPush p nowr) (pre ++ pf :: w)) ctx0) as [[xs r] cx].
     split; [exact D|]. destruct D as (_ & Hex & _). destruct (sess_meta_rs cx Hex) as [P M].
@@ -1208,7 +1251,7 @@ Section ComposeSessRS.
     { rewrite Ew. apply close_flag_ok_after_last; [exact Fb|]. rewrite <- Ew. exact (Rec pre). }
     pose proof (rs_session_fdt_late_delivers_any_flag_before_fdt E fdt_oracle rcfg oti content rep' toi (obj_md5 m) nowr pf id (nocode_roti (c_oti cfg))
                   (fdt_doc cfg complete now m) (sess_inst_rs cfg now m) pre w Hsok Hbok Htoi sess_pf_ok_rs sess_oracle_rs sess_live_rs
-                  sess_entry_rs Hwa Hws Hmd5 Hmds Hmax Hnb (proj2 (Forall_app _ _ _) (conj Tp T)) (proj2 (Forall_app _ _ _) (conj Gp G))
+                  sess_entry_rs Hwa Hws Hmd5 Hmds sess_rep_sized Hmax Hnb (proj2 (Forall_app _ _ _) (conj Tp T)) (proj2 (Forall_app _ _ _) (conj Gp G))
                   Pp Cf (Rec pre)) as D.
     destruct (recv_run E fdt_oracle rcfg recv0 (map (fun p => RvPush p nowr) (pre ++ pf :: w)) ctx0) as [[xs r] cx].
     split; [exact D|]. destruct D as (_ & Hex & _). destruct (sess_meta_rs cx Hex) as [P M].
@@ -1302,6 +1345,9 @@ Proof.
   replace (expiry_ns exs_cfg exs_now) with 1700003600000000000%Z by (vm_compute; reflexivity). vm_compute. discriminate.
 Qed.
 
+Lemma exsr_rep_sym_ok : rs_rep_sym_ok xor_rep (obj_ecfg_rs exs_cfg exsr_m 1 false false) exr_content.
+Proof. apply xor_rep_sym_ok_gen. vm_compute. discriminate. Qed.
+
 (* the premises of the session theorems are satisfiable: the session above by the theorems *)
 Example exsr_by_theorem closable fti :
   let '(_, r, cx) := recv_run exsr_env fdt_oracle exs_rcfg recv0
@@ -1311,7 +1357,7 @@ Example exsr_by_theorem closable fti :
   session_meta_delivered_rs exs_cfg false exs_now exsr_m exr_content exs_rcfg r cx.
 Proof.
   exact (rs_session_clean_channel xor_rep no_rsrc exs_cfg false exs_now exsr_m exr_content exsr_env exs_rcfg
-           exs_nowr 1 exs_sct exsr_sender_ok exsr_doc_fits xor_rep_len exsr_receiver_ok 2 closable true fti le_1_2).
+           exs_nowr 1 exs_sct exsr_sender_ok exsr_doc_fits xor_rep_len exsr_rep_sym_ok exsr_receiver_ok 2 closable true fti le_1_2).
 Qed.
 
 Example exsr_late_by_theorem j closable fti :
@@ -1323,7 +1369,7 @@ Example exsr_late_by_theorem j closable fti :
   session_meta_delivered_rs exs_cfg false exs_now exsr_m exr_content exs_rcfg r cx.
 Proof.
   exact (rs_session_late_join xor_rep no_rsrc exs_cfg false exs_now exsr_m exr_content exsr_env exs_rcfg
-           exs_nowr 1 exs_sct exsr_sender_ok exsr_doc_fits xor_rep_len exsr_receiver_ok 2 true j 2 closable true fti le_1_2 le_1_2).
+           exs_nowr 1 exs_sct exsr_sender_ok exsr_doc_fits xor_rep_len exsr_rep_sym_ok exsr_receiver_ok 2 true j 2 closable true fti le_1_2 le_1_2).
 Qed.
 
 
